@@ -32,6 +32,8 @@ def concurrent_oracle(case, obs):
         return 'block-policy-discarded'
     last = {}
     for d in delivered:
+        if d[1:].count('.') != 1 or not d[1:].replace('.', '').isdigit():
+            return 'an item was delivered with altered content: %r' % d
         p, n = d[1:].split('.')
         if int(n) <= last.get(p, -1):
             return 'per-producer-order-broken'
